@@ -97,6 +97,22 @@ Example C08_history_nonvacuous :
   hist (vis_of zero) cs = hist (vis_of zero) (prune (vis_of zero) cs).
 Proof. vm_compute. repeat split; reflexivity. Qed.
 
+(* The history statement on the state function itself (each call starts from `cur` of its
+   predecessor's final configuration, no list normalisation), field by field. *)
+Theorem C08_state_history_equals_history_without_failed_calls :
+  forall (cs : list call) (v0 : vstate),
+    (forall c, In c cs -> atomicb (call_prog c) = true) ->
+    forall f, vhist v0 cs f = vhist v0 (vprune v0 cs) f.
+Proof. exact vhist_prune. Qed.
+Print Assumptions C08_state_history_equals_history_without_failed_calls.
+
+Example C08_state_history_nonvacuous :
+  let cs := [(compare_two_fixed, [], Some (2, 0)); (find_matches_fixed, [(0, true)], None);
+             (em_fixed, [(0, false); (2, true); (1, false)], Some (4, 0))] in
+  map (fun c => call_prog c) (vprune zero cs) = [find_matches_fixed] /\
+  map (vhist zero cs) all_fields = map (vhist zero (vprune zero cs)) all_fields.
+Proof. vm_compute. split; reflexivity. Qed.
+
 (* ---- the code as pinned (before the repairs 6d14b1b4, fe1fba29, 82a01923) violated the statement:
    concrete failing runs of the traces the translator extracts from that tree.  The witnesses were
    replayed on the real code by the fault-injection harness (fault points 6.. of the EM call,
